@@ -29,6 +29,9 @@ type RouteSpec struct {
 	// Late: the route was registered after the WebService's default media types were changed
 	// (it inherits Consumes2/Produces2 instead of Consumes/Produces)
 	Late bool `json:"late,omitempty"`
+	// Style: the way the declaration is written with the RouteBuilder (a bit set, see
+	// harness.Style…); the declaration itself is the same for every value.
+	Style int `json:"style,omitempty"`
 }
 
 // ServiceSpec declares one WebService.
@@ -46,6 +49,9 @@ type ServiceSpec struct {
 	// second time; routes marked Late inherit these. HasLate tells whether that happened at all.
 	Consumes2 []string `json:"consumes2,omitempty"`
 	Produces2 []string `json:"produces2,omitempty"`
+	// Docs: the WebService also carries documentation-only calls (ApiVersion, Doc, Param,
+	// TypeNameHandler), which declare nothing.
+	Docs bool `json:"docs,omitempty"`
 }
 
 // TableSpec is a whole route table.
